@@ -4,7 +4,7 @@ import sys
 import time
 
 
-def forked(fn, tasks, workers, cap):
+def forked(fn, tasks, workers, cap, progress=None):
     """Run fn(task) for every task, each in its OWN freshly forked child of this (clean) process,
     at most `workers` at a time; results in task order.  One process per task means a run can be
     influenced at most by the earlier runs of its own chunk, whatever process-global state the
@@ -59,6 +59,8 @@ def forked(fn, tasks, workers, cap):
                 if kind != 'ok':
                     raise RuntimeError('worker for task %d failed:\n%s' % (idx, val))
                 results[idx] = val
+                if progress is not None:
+                    progress(sum(1 for r_ in results if r_ is not None), len(tasks))
     except BaseException:
         for r, (pid, idx, buf) in running.items():
             try:
